@@ -7,8 +7,9 @@ use crate::items::*;
 use crate::targets::*;
 use embedded_graphics::{
     geometry::{Dimensions, Point},
+    mono_font::{MonoFont, MonoTextStyle, MonoTextStyleBuilder},
     pixelcolor::Rgb888,
-    text::{renderer::TextRenderer, Alignment, Baseline, LineHeight},
+    text::{renderer::TextRenderer, Alignment, Baseline, LineHeight, Text},
     Drawable,
 };
 
@@ -16,31 +17,48 @@ pub fn prop() -> Prop {
     Prop {
         id: "C15",
         level: "exploration",
-        rule: "proptest tapes decoding to a Text: random built-in font, strings over the font's mapping with \\n, \\r\\n, empty lines, trailing newline, unmapped characters, 3 alignments x 4 baselines x line heights in percent (0..=400) and pixels (0..=40), colour/decoration sets, positions in [-30,30]. Oracle (relations between API calls): per line the bounding box starts at x (Left), ends at x (Right) or satisfies |left + right - 2x| <= 1 (Center), its top is y minus the documented baseline offset {Top 0, Bottom h-1, Middle (h-1)/2, Alphabetic font.baseline}, its width is n*char_width; draw returns measure_string(line, line start).next_position; draw(s1) then draw(s2) at the returned point == draw(s1+s2) in pixels and position (single line, left aligned, built-in fonts have no spacing); a text with line breaks == its lines drawn separately k*line_height below the position, in order, with the last line's return value; replacing \\n by \\r\\n changes neither pixels, nor the returned position, nor the bounding box. Non-trivial: >= 2 lines of different length with alignment != Left, or a \\r\\n.",
+        rule: "proptest tapes decoding to a Text: random built-in font, strings over the font's mapping with \\n, \\r\\n, empty lines, trailing newline, unmapped characters, 3 alignments x 4 baselines x line heights in percent (0..=400) and pixels (0..=40), colour/decoration sets, positions in [-30,30]. Oracle (relations between API calls): per line the bounding box starts at x (Left), ends at x (Right) or satisfies |left + right - 2x| <= 1 (Center), its top is y minus the documented baseline offset {Top 0, Bottom h-1, Middle (h-1)/2, Alphabetic font.baseline}, its width is n*char_width; draw returns measure_string(line, line start).next_position; draw(s1) then draw(s2) at the returned point == draw(s1+s2) in pixels and position (single line, left aligned, built-in fonts have no spacing); a text with line breaks == its lines drawn separately k*line_height below the position, in order, with the last line's return value; replacing \\n by \\r\\n changes neither pixels, nor the returned position, nor the bounding box. A second sub-check repeats all relations except concatenation with copies of the built-in fonts that have character_spacing 1..=3 (line width n*(w+s)-s). Non-trivial: >= 2 lines of different length with alignment != Left, or a \\r\\n.",
         assumptions: vec![
             "line_height is LineHeight::to_absolute(font height) as documented (pixels, or percent of the font height rounded down)",
             "the concatenation clause is only claimed for fonts without spacing (all built-in fonts)",
         ],
-        subs: vec![Sub::tape("layout", 70, 200_000, 3_000_000, layout)],
+        subs: vec![
+            Sub::tape("layout", 70, 200_000, 3_000_000, |d, cx| layout(d, cx, false)),
+            Sub::tape("layout_spaced_fonts", 70, 100_000, 1_500_000, |d, cx| layout(d, cx, true)),
+        ],
     }
 }
 
 type C = Rgb888;
 
-fn draw_map(t: &TextItem<C>) -> Result<(Map<C>, Point), Fail> {
+/// Draws the text of `t` with `font` (which may be a spaced copy of the built-in font).
+fn draw_map(t: &TextItem<C>, font: &MonoFont) -> Result<(Map<C>, Point), Fail> {
     let mut tgt = NativeT::<C>::new();
     tgt.0.log = false;
-    let p = t.build().draw(&mut tgt).map_err(|e| Fail { sig: "draw_error".into(), detail: format!("{:?}", e) })?;
+    let p = build(t, font).draw(&mut tgt).map_err(|e| Fail { sig: "draw_error".into(), detail: format!("{:?}", e) })?;
     Ok((tgt.0.map, p))
 }
 
-fn layout(d: &mut Dec, cx: &mut Cx) -> Res {
+fn char_style<'a>(t: &TextItem<C>, font: &'a MonoFont<'a>) -> MonoTextStyle<'a, C> {
+    // same colours and decorations, other font
+    MonoTextStyleBuilder::from(&t.char_style()).font(font).build()
+}
+
+fn build<'a>(t: &'a TextItem<C>, font: &'a MonoFont<'a>) -> Text<'a, MonoTextStyle<'a, C>> {
+    Text::with_text_style(&t.text, t.pos, char_style(t, font), t.text_style())
+}
+
+fn layout(d: &mut Dec, cx: &mut Cx, spaced: bool) -> Res {
     let mut item = gen_text::<C>(d, 30, 12);
     // strings with CR LF in this property are generated as LF and converted below
     item.text = item.text.replace("\r\n", "\n");
     let with_crlf = d.ratio(1, 3);
     cx.describe(|| format!("{} (CR LF variant compared: {})", item.desc(), with_crlf));
-    let font = item.font();
+    let transparent_spaced = spaced && item.text_color.is_none() && item.background.is_none();
+    let spacing = if spaced { d.u(1, 3) } else { 0 };
+    let font_value = MonoFont { character_spacing: spacing, ..*item.font() };
+    let font = &font_value;
+    let sp = spacing as i32;
     let (cw, ch) = (font.character_size.width as i32, font.character_size.height as i32);
     let lines: Vec<&str> = item.text.split('\n').collect();
     cx.class(match item.alignment {
@@ -49,7 +67,7 @@ fn layout(d: &mut Dec, cx: &mut Cx) -> Res {
         Alignment::Right => "right",
     });
     let lh = item.line_height.to_absolute(font.character_size.height) as i32;
-    let style = item.char_style();
+    let style = char_style(&item, font);
     let base_off = match item.baseline {
         Baseline::Top => 0,
         Baseline::Bottom => ch - 1,
@@ -58,7 +76,7 @@ fn layout(d: &mut Dec, cx: &mut Cx) -> Res {
     };
 
     // ---- whole text
-    let (whole_map, whole_next) = draw_map(&item)?;
+    let (whole_map, whole_next) = draw_map(&item, font)?;
 
     // ---- per line: alignment, baseline, returned position, and the separate-lines map
     let mut sep_map: Map<C> = Map::new();
@@ -67,14 +85,14 @@ fn layout(d: &mut Dec, cx: &mut Cx) -> Res {
         let mut single = item.clone();
         single.text = line.to_string();
         single.pos = item.pos + Point::new(0, k as i32 * lh);
-        let (m, next) = draw_map(&single)?;
+        let (m, next) = draw_map(&single, font)?;
         for (key, v) in m {
             sep_map.insert(key, v);
         }
         last_next = next;
         let n = line.chars().count() as i32;
-        let bb = single.build().bounding_box();
-        let w = n * cw;
+        let bb = build(&single, font).bounding_box();
+        let w = n * (cw + sp) - if n > 0 { sp } else { 0 };
         if n > 0 {
             let (left, right) = (bb.top_left.x, bb.top_left.x + bb.size.width as i32 - 1);
             ensure!(bb.size.width as i32 == w, "line:width", "line {:?}: bounding box {:?}, expected width {}", line, bb, w);
@@ -88,6 +106,10 @@ fn layout(d: &mut Dec, cx: &mut Cx) -> Res {
             // draw returns what measure_string predicts for the line at its start position
             let start = Point::new(left, single.pos.y);
             let predicted = style.measure_string(line, start, item.baseline).next_position;
+            if transparent_spaced && next == predicted + Point::new(sp, 0) {
+                // F-17 (known finding, see C14): the transparent arm adds a trailing spacing
+                return fail("transparent_spaced_text:trailing_spacing", format!("line {:?} without text and background colour in a font with spacing {}: draw returned {:?}, measure_string predicts {:?}", line, sp, next, predicted));
+            }
             ensure!(next == predicted, "draw:returns_measure_string", "line {:?}: draw returned {:?}, measure_string(line start {:?}) predicts {:?}", line, next, start, predicted);
             ensure!(next == Point::new(left + w, single.pos.y), "draw:next_position", "line {:?}: draw returned {:?}, expected {:?}", line, next, Point::new(left + w, single.pos.y));
         }
@@ -101,32 +123,32 @@ fn layout(d: &mut Dec, cx: &mut Cx) -> Res {
     if with_crlf {
         let mut crlf = item.clone();
         crlf.text = item.text.replace('\n', "\r\n");
-        let (m, next) = draw_map(&crlf)?;
+        let (m, next) = draw_map(&crlf, font)?;
         if let Some(df) = diff_maps("text with \\n", &whole_map, "text with \\r\\n", &m) {
             return fail("crlf:pixels", df);
         }
         ensure!(next == whole_next, "crlf:next_position", "\\r\\n variant returned {:?}, \\n variant {:?}", next, whole_next);
-        let (b1, b2) = (item.build().bounding_box(), crlf.build().bounding_box());
+        let (b1, b2) = (build(&item, font).bounding_box(), build(&crlf, font).bounding_box());
         ensure!(b1 == b2, "crlf:bounding_box", "\\r\\n variant has bounding box {:?}, \\n variant {:?}", b2, b1);
     }
 
     // ---- concatenation (single line, left aligned)
-    if lines.len() == 1 {
+    if lines.len() == 1 && !spaced {
         let chars: Vec<char> = item.text.chars().collect();
         let cut = if chars.is_empty() { 0 } else { d.idx(chars.len() + 1) };
         let (s1, s2): (String, String) = (chars[..cut].iter().collect(), chars[cut..].iter().collect());
         let mut left_item = item.clone();
         left_item.alignment = Alignment::Left;
-        let (joined, joined_next) = draw_map(&left_item)?;
+        let (joined, joined_next) = draw_map(&left_item, font)?;
         let mut tgt = NativeT::<C>::new();
         tgt.0.log = false;
         let mut a = left_item.clone();
         a.text = s1.clone();
-        let p1 = a.build().draw(&mut tgt).map_err(|e| Fail { sig: "draw_error".into(), detail: format!("{:?}", e) })?;
+        let p1 = build(&a, font).draw(&mut tgt).map_err(|e| Fail { sig: "draw_error".into(), detail: format!("{:?}", e) })?;
         let mut b = left_item.clone();
         b.text = s2.clone();
         b.pos = p1;
-        let p2 = b.build().draw(&mut tgt).map_err(|e| Fail { sig: "draw_error".into(), detail: format!("{:?}", e) })?;
+        let p2 = build(&b, font).draw(&mut tgt).map_err(|e| Fail { sig: "draw_error".into(), detail: format!("{:?}", e) })?;
         if let Some(df) = diff_maps(&format!("draw({:?} + {:?})", s1, s2), &joined, "draw(s1) then draw(s2) at the returned position", &tgt.0.map) {
             return fail("concat:pixels", df);
         }
